@@ -119,6 +119,12 @@ chk("C14", "vexplore",
     "Trusted: golang.org/x/time/rate is virtualised by the same rewrite. The concurrent clause (simultaneous attempts) is exercised with the controlled scheduler in C16's harness; limiter critical sections are atomic at its granularity.",
     "DESIGN.md 3 C14")
 
+chk("C16", "vsched",
+    "stateless model checking of the implementation: the real handlers run as threads under a hand-written controlled scheduler (sync shims, yield points at storage operations, spawn capture, all injected by an AST rewrite at check time); depth-first exploration of all schedules within a preemption bound on fresh instances, with vector-clock race analysis of probed fields and comparison against all sequential orders",
+    "For every unordered pair (including twins) of 19 request kinds that save or delete a profile, consume a one-time value or touch the shared challenge/push maps (thorough: plus triples), every interleaving at shim-lock / storage-operation granularity with at most 2 preemptions (thorough 3) is executed against a fresh real RuntimeState; each execution is checked for deadlock/hang/panic, analysed with vector clocks for unordered conflicting accesses to localAuthData, vipPushCookie, pendingOauth2, totpLocalRateLimit and the signer fields, and its outcome (statuses, upgraded cookies, final token presence/enabled flags) is compared with the outcomes of all sequential orders of the same real handlers; outside that set it is a violation when an acknowledged disable/delete is not in effect at the end or the same one-time value is honoured twice. Executions, scheduling decisions and outcome classes per combination are in the evidence; schedules are replayable choice lists.",
+    "36 known findings (34 lost updates that undo an acknowledged disable/delete, keyed by the undone action x concurrent handler, and 2 double-spends) stem from whole-profile load-modify-save without a version check and are listed in known_findings.jsonl. Preemption inside a storage operation or inside library code is outside the bound; fields without probes are left to the Go race detector.",
+    "DESIGN.md 3 C16")
+
 NOT_YET = {
 }
 
